@@ -57,8 +57,11 @@ struct Rec {
     g: u32,     // bit set over GF
     sk: u8,     // 0 none, 1 record for the target stream (1), 2 record for another stream (2)
     s: u32,     // bit set over SF
-    tk: u8,     // 0 no topic table, 1 empty table, 2 entry for the target topic (1), 3 entry for another topic (2)
+    tk: u8,     // 0 no topic table, 1 empty table, 2 entry for the target topic (2), 3 entry for another topic (1)
+                // (target stream 1 / target topic 2, other stream 2 / other topic 1: a rule that confuses the two ids consults the OTHER record)
     t: u32,     // bit set over TF
+    os: u32,    // sk == 3 ("both"): flags of the ADDITIONAL record for the other stream (2) ...
+    ot: u32,    // ... and of its entries for topics 1 and 2 (no topic table when 0)
 }
 
 impl Rec {
@@ -77,7 +80,7 @@ impl Rec {
                 1 => Some(AHashMap::new()),
                 k => {
                     let mut m = AHashMap::new();
-                    m.insert(if k == 2 { 1u32 } else { 2u32 }, TopicPermissions {
+                    m.insert(if k == 2 { 2u32 } else { 1u32 }, TopicPermissions {
                         manage_topic: b(self.t, 0), read_topic: b(self.t, 1), poll_messages: b(self.t, 2), send_messages: b(self.t, 3),
                     });
                     Some(m)
@@ -88,24 +91,43 @@ impl Rec {
                 poll_messages: b(self.s, 4), send_messages: b(self.s, 5), topics,
             };
             let mut m = AHashMap::new();
-            m.insert(if self.sk == 1 { 1u32 } else { 2u32 }, sp);
+            m.insert(if self.sk == 2 { 2u32 } else { 1u32 }, sp);
+            if self.sk == 3 {
+                let topics = if self.ot == 0 {
+                    None
+                } else {
+                    let mut tm = AHashMap::new();
+                    for tid in 1..=2u32 {
+                        tm.insert(tid, TopicPermissions {
+                            manage_topic: b(self.ot, 0), read_topic: b(self.ot, 1), poll_messages: b(self.ot, 2), send_messages: b(self.ot, 3),
+                        });
+                    }
+                    Some(tm)
+                };
+                m.insert(2u32, StreamPermissions {
+                    manage_stream: b(self.os, 0), read_stream: b(self.os, 1), manage_topics: b(self.os, 2), read_topics: b(self.os, 3),
+                    poll_messages: b(self.os, 4), send_messages: b(self.os, 5), topics,
+                });
+            }
             Some(m)
         };
         Permissions { global, streams }
     }
     fn to_json(&self) -> Value {
         let names = |bits: u32, f: &[&str]| -> Vec<String> { f.iter().enumerate().filter(|(i, _)| bits & (1 << i) != 0).map(|(_, n)| n.to_string()).collect() };
-        let sk = ["none", "target", "other"][self.sk as usize];
+        let sk = ["none", "target", "other", "both"][self.sk as usize];
         let tk = ["none", "empty", "target", "other"][self.tk as usize];
-        json!({"g": names(self.g, &GF), "sk": sk, "s": names(self.s, &SF), "tk": tk, "t": names(self.t, &TF)})
+        json!({"g": names(self.g, &GF), "sk": sk, "s": names(self.s, &SF), "tk": tk, "t": names(self.t, &TF),
+               "os": names(self.os, &SF), "ot": names(self.ot, &TF)})
     }
     fn from_json(v: &Value) -> Rec {
         let bits = |a: &Value, f: &[&str]| -> u32 {
             a.as_array().map(|l| l.iter().fold(0u32, |acc, x| acc | f.iter().position(|n| Some(*n) == x.as_str()).map(|i| 1 << i).unwrap_or(0))).unwrap_or(0)
         };
         let idx = |s: &Value, opts: &[&str]| -> u8 { opts.iter().position(|o| Some(*o) == s.as_str()).unwrap_or(0) as u8 };
-        Rec { g: bits(&v["g"], &GF), sk: idx(&v["sk"], &["none", "target", "other"]), s: bits(&v["s"], &SF),
-              tk: idx(&v["tk"], &["none", "empty", "target", "other"]), t: bits(&v["t"], &TF) }
+        Rec { g: bits(&v["g"], &GF), sk: idx(&v["sk"], &["none", "target", "other", "both"]), s: bits(&v["s"], &SF),
+              tk: idx(&v["tk"], &["none", "empty", "target", "other"]), t: bits(&v["t"], &TF),
+              os: bits(&v["os"], &SF), ot: bits(&v["ot"], &TF) }
     }
 }
 
@@ -115,7 +137,7 @@ fn rules() -> Vec<Rule> {
     const U: u32 = 7;
     macro_rules! g { ($n:ident) => { (stringify!($n), Box::new(|p: &Permissioner| p.$n(U)) as Box<dyn Fn(&Permissioner) -> _>) }; }
     macro_rules! s { ($n:ident) => { (stringify!($n), Box::new(|p: &Permissioner| p.$n(U, 1)) as Box<dyn Fn(&Permissioner) -> _>) }; }
-    macro_rules! t { ($n:ident) => { (stringify!($n), Box::new(|p: &Permissioner| p.$n(U, 1, 1)) as Box<dyn Fn(&Permissioner) -> _>) }; }
+    macro_rules! t { ($n:ident) => { (stringify!($n), Box::new(|p: &Permissioner| p.$n(U, 1, 2)) as Box<dyn Fn(&Permissioner) -> _>) }; }
     vec![
         g!(get_stats), g!(get_clients), g!(get_client), g!(get_user), g!(get_users), g!(create_user), g!(delete_user), g!(update_user),
         g!(update_permissions), g!(change_password), g!(get_streams), g!(create_stream),
@@ -170,17 +192,25 @@ fn enumerate_records(level: &str) -> Vec<Rec> {
     let tflags: Vec<u32> = if level == "thorough" { (0..16).collect() } else { vec![0, 1, 2, 4, 8, 15, 3, 12] };
     let mut out = vec![];
     for g in &gs {
-        out.push(Rec { g: *g, sk: 0, s: 0, tk: 0, t: 0 });
+        out.push(Rec { g: *g, sk: 0, s: 0, tk: 0, t: 0, os: 0, ot: 0 });
         for sk in 1..=2u8 {
             for s in &sflags {
                 for tk in 0..=3u8 {
                     if tk < 2 {
-                        out.push(Rec { g: *g, sk, s: *s, tk, t: 0 });
+                        out.push(Rec { g: *g, sk, s: *s, tk, t: 0, os: 0, ot: 0 });
                     } else {
                         for t in &tflags {
-                            out.push(Rec { g: *g, sk, s: *s, tk, t: *t });
+                            out.push(Rec { g: *g, sk, s: *s, tk, t: *t, os: 0, ot: 0 });
                         }
                     }
+                }
+            }
+        }
+        // the target record next to a record for the OTHER stream holding everything (sk "both"): nothing of the latter may count
+        for s in &sflags {
+            for (tk, t) in [(0u8, 0u32), (2, 0), (2, 15), (3, 15)] {
+                for (os, ot) in [(63u32, 15u32), (63, 0), (4, 0), (0, 15)] {
+                    out.push(Rec { g: *g, sk: 3, s: *s, tk, t, os, ot });
                 }
             }
         }
@@ -221,8 +251,8 @@ impl PermLens {
                 let mut r2 = rec.clone();
                 match rng.below(4) {
                     0 => r2.g |= 1 << rng.below(10),
-                    1 if r2.sk == 1 => r2.s |= 1 << rng.below(6),
-                    2 if r2.sk == 1 && r2.tk == 2 => r2.t |= 1 << rng.below(4),
+                    1 if r2.sk == 1 || r2.sk == 3 => r2.s |= 1 << rng.below(6),
+                    2 if (r2.sk == 1 || r2.sk == 3) && r2.tk == 2 => r2.t |= 1 << rng.below(4),
                     _ => {
                         if r2.sk == 0 {
                             r2.sk = 1;
@@ -238,7 +268,7 @@ impl PermLens {
             out.emit(&json!({"ev":"rule","sc":idx,"i":i,"rec":rec.to_json(),"d":d,"plus":plus}));
         }
         // the root record
-        let root = Rec { g: 0x3ff, sk: 0, s: 0, tk: 0, t: 0 };
+        let root = Rec { g: 0x3ff, sk: 0, s: 0, tk: 0, t: 0, os: 0, ot: 0 };
         out.emit(&json!({"ev":"rule","sc":idx,"i":i + 1,"rec":root.to_json(),"d":decide(&root, &rules),"plus":[],"root":true}));
         Ok(())
     }
@@ -253,11 +283,11 @@ impl PermLens {
         let admin = rt.block_on(srv::tcp_root(inc.tcp))?;
         rt.block_on(async {
             admin.create_stream("vstream", Some(1)).await.map_err(|e| e.to_string())?;
-            admin.create_topic(&Identifier::numeric(1).unwrap(), "vtopic", 1, CompressionAlgorithm::None, None, Some(1),
+            admin.create_topic(&Identifier::numeric(1).unwrap(), "vtopic", 1, CompressionAlgorithm::None, None, Some(2),
                 IggyExpiry::NeverExpire, MaxTopicSize::Unlimited).await.map_err(|e| e.to_string())?;
-            admin.create_consumer_group(&Identifier::numeric(1).unwrap(), &Identifier::numeric(1).unwrap(), "vgroup", Some(1)).await.map_err(|e| e.to_string())?;
+            admin.create_consumer_group(&Identifier::numeric(1).unwrap(), &Identifier::numeric(2).unwrap(), "vgroup", Some(1)).await.map_err(|e| e.to_string())?;
             let mut msgs = vec![Message::new(None, Bytes::from("hello"), None)];
-            admin.send_messages(&Identifier::numeric(1).unwrap(), &Identifier::numeric(1).unwrap(), &Partitioning::partition_id(1), &mut msgs).await.map_err(|e| e.to_string())?;
+            admin.send_messages(&Identifier::numeric(1).unwrap(), &Identifier::numeric(2).unwrap(), &Partitioning::partition_id(1), &mut msgs).await.map_err(|e| e.to_string())?;
             admin.create_user("victim", "victim-pwd", UserStatus::Active, None).await.map_err(|e| e.to_string())?;
             Ok::<(), String>(())
         })?;
@@ -265,9 +295,9 @@ impl PermLens {
         let fingerprint = |rt: &tokio::runtime::Runtime| -> String {
             rt.block_on(async {
                 let s = admin.get_streams().await.map(|v| v.iter().map(|s| format!("{}:{}:{}:{}", s.id, s.name, s.topics_count, s.messages_count)).collect::<Vec<_>>());
-                let t = admin.get_topic(&Identifier::numeric(1).unwrap(), &Identifier::numeric(1).unwrap()).await.map(|t| t.map(|t| format!("{}:{}:{}", t.name, t.partitions_count, t.messages_count)));
+                let t = admin.get_topic(&Identifier::numeric(1).unwrap(), &Identifier::numeric(2).unwrap()).await.map(|t| t.map(|t| format!("{}:{}:{}", t.name, t.partitions_count, t.messages_count)));
                 let u = admin.get_users().await.map(|v| v.iter().map(|u| format!("{}:{}", u.id, u.username)).collect::<Vec<_>>());
-                let g = admin.get_consumer_groups(&Identifier::numeric(1).unwrap(), &Identifier::numeric(1).unwrap()).await.map(|v| v.len());
+                let g = admin.get_consumer_groups(&Identifier::numeric(1).unwrap(), &Identifier::numeric(2).unwrap()).await.map(|v| v.len());
                 format!("{s:?}|{t:?}|{u:?}|{g:?}")
             })
         };
@@ -317,7 +347,7 @@ impl PermLens {
         let admin = rt.block_on(srv::tcp_root(inc.tcp))?;
         out.emit(&json!({"ev":"reset","sc":idx,"id":scn.id,"kind":"ops"}));
         let s1 = Identifier::numeric(1).unwrap();
-        let t1 = Identifier::numeric(1).unwrap();
+        let t1 = Identifier::numeric(2).unwrap();
         let setup = |rt: &tokio::runtime::Runtime| -> Result<(), String> {
             rt.block_on(async {
                 // (re)create the fixtures the user's operations may have destroyed: streams 1 and 2 with topics 1 and 2, a group, messages
@@ -372,14 +402,14 @@ impl PermLens {
         rt.block_on(admin.update_permissions(&Identifier::named("subject").unwrap(), None)).map_err(|e| e.to_string())?;
         for (op, res) in all_ops(rt, &same, "tcp") {
             i += 1;
-            out.emit(&json!({"ev":"op","sc":idx,"i":i,"rec":Rec{g:0,sk:0,s:0,tk:0,t:0}.to_json(),"op":op,"res":res,"phase":"stripped"}));
+            out.emit(&json!({"ev":"op","sc":idx,"i":i,"rec":Rec{g:0,sk:0,s:0,tk:0,t:0,os:0,ot:0}.to_json(),"op":op,"res":res,"phase":"stripped"}));
         }
         setup(rt)?;
         rt.block_on(admin.update_permissions(&Identifier::named("subject").unwrap(), Some(Permissions::root()))).map_err(|e| e.to_string())?;
         rt.block_on(admin.delete_user(&Identifier::named("subject").unwrap())).map_err(|e| e.to_string())?;
         for (op, res) in all_ops(rt, &same, "tcp") {
             i += 1;
-            out.emit(&json!({"ev":"op","sc":idx,"i":i,"rec":Rec{g:0,sk:0,s:0,tk:0,t:0}.to_json(),"op":op,"res":res,"phase":"deleted"}));
+            out.emit(&json!({"ev":"op","sc":idx,"i":i,"rec":Rec{g:0,sk:0,s:0,tk:0,t:0,os:0,ot:0}.to_json(),"op":op,"res":res,"phase":"deleted"}));
         }
         // the root user can be neither deleted nor stripped of its permissions
         let r1 = res_of(&rt.block_on(admin.delete_user(&Identifier::numeric(1).unwrap())));
@@ -393,10 +423,10 @@ impl PermLens {
     }
 }
 
-/// Every operation of the API once, against stream 1 / topic 1 (names of the rules they must consult).
+/// Every operation of the API once, against stream 1 / topic 2 (names of the rules they must consult).
 fn all_ops(rt: &tokio::runtime::Runtime, provider: &dyn Fn() -> std::sync::Arc<dyn Client>, transport: &str) -> Vec<(String, String)> {
     let s1 = Identifier::numeric(1).unwrap();
-    let t1 = Identifier::numeric(1).unwrap();
+    let t1 = Identifier::numeric(2).unwrap();
     let g1 = Identifier::numeric(1).unwrap();
     let cons = Consumer::new(Identifier::numeric(5).unwrap());
     let mut out: Vec<(String, String)> = vec![];
@@ -457,7 +487,7 @@ fn all_ops(rt: &tokio::runtime::Runtime, provider: &dyn Fn() -> std::sync::Arc<d
     op!("delete_consumer_group", c, c.delete_consumer_group(&s1, &t1, &Identifier::numeric(9).unwrap()));
     op!("create_partitions", c, c.create_partitions(&s1, &t1, 1));
     op!("delete_partitions", c, c.delete_partitions(&s1, &t1, 1));
-    op!("update_topic", c, c.update_topic(&s1, &t1, "vtopic1", CompressionAlgorithm::None, None, IggyExpiry::NeverExpire, MaxTopicSize::Unlimited));
+    op!("update_topic", c, c.update_topic(&s1, &t1, "vtopic2", CompressionAlgorithm::None, None, IggyExpiry::NeverExpire, MaxTopicSize::Unlimited));
     op!("purge_topic", c, c.purge_topic(&s1, &t1));
     op!("create_topic", c, c.create_topic(&s1, "made-by-subject", 1, CompressionAlgorithm::None, None, Some(9), IggyExpiry::NeverExpire, MaxTopicSize::Unlimited));
     op!("delete_topic", c, c.delete_topic(&s1, &Identifier::numeric(9).unwrap()));
